@@ -25,6 +25,7 @@ EXPLANATION = (
     "attachment, mapping) after a check-based fallback filter, so the object the filter accepted is the object drawn; (R8) "
     "every column listed in DataFrameSchema.unique is generated unique (membership test, not a single designated column); (R9) a row strategy passed to data_frames(rows=...) also carries each column's own checks. (R10) definite assignment: no function of pandera/strategies/ reads a local that a branch-only path from its entry leaves unassigned (CFG may-analysis, optimistic about try bodies and loop bodies, correlated guards pruned) - an UnboundLocalError there would escape example(). " 
     " (R11) each pandera.dtypes.is_<kind> classifier used by the strategy dispatch tests subtyping of the class of that kind; (R12) Schema.strategy()/strategy_component() forward every schema attribute to the strategy builders exactly as declared (unique=self.unique, checks=self.checks, ...). " 
+    " (R13) the strategy of a SeriesSchema hands self.index to the generated Series (the schema validates the index component). " 
     "NOT decided: that draws validate (hypothesis search + numpy/pandas dtype conversion)."
 )
 LEVEL_RULE = "one obligation per (check strategy, path) / parameter / fallback site"
